@@ -138,8 +138,9 @@ def rule_d(ctx):
         rep.add('C20.d', '%s from_rsocket_publisher / dispose cancels both helper tasks' % pkg, disp, ok,
                 'tasks %s are cancelled by dispose()' % sorted(tasks) if ok else
                 'dispose() does not cancel %s' % sorted(set(tasks) - set(cancelled)))
-        rets = [n for n in walk_local(onsub.node) if isinstance(n, ast.Return) and n.value is not None and
-                'Disposable' in ast.unparse(n.value) and 'dispose' in ast.unparse(n.value)]
+        from ..astutil import returned_exprs
+        rets = [v for v in returned_exprs(onsub.node) if 'Disposable' in ast.unparse(v) and
+                'dispose' in ast.unparse(v)]
         rep.add('C20.d', '%s from_rsocket_publisher / the disposable returned runs dispose', onsub, bool(rets),
                 'on_subscribe returns Disposable(dispose)' if rets else
                 'the subscription function does not return a disposable bound to dispose()')
